@@ -22,6 +22,7 @@ from typing import List, Tuple
 from ..ctx import Ctx
 from ..model import AnalysisError, FuncInfo, norm, walk_no_nested
 from ..report import DISCHARGED, VIOLATED, RuleResult
+from ..util import has_escape
 
 BASE = "json_to_models/models/base.py"
 META = "json_to_models/dynamic_typing/models_meta.py"
@@ -354,7 +355,42 @@ def rule_uniq1(ctx: Ctx) -> RuleResult:
                     (isinstance(x, ast.Call) and isinstance(x.func, ast.Attribute) and x.func.attr in ("setdefault", "add", "update")
                      and isinstance(x.func.value, ast.Attribute) and norm(x.func.value.value) == "self")
                     for ms in k.methods.values() for m in ms for x in walk_no_nested(m.node))
+            # ... and every one of them: the keys handed back are those of a constant collection, and the class reserves them in a
+            # loop over the same collection
+            partial = None
+            if raw and reserved:
+                handed = None
+                for x in walk_no_nested(g.node):
+                    if isinstance(x, ast.If) and isinstance(x.test, ast.Compare) and len(x.test.ops) == 1 and isinstance(x.test.ops[0], ast.In) \
+                            and norm(x.test.left) == p and isinstance(x.test.comparators[0], (ast.Tuple, ast.List, ast.Set)) \
+                            and any(r in raw for r in ast.walk(x)):
+                        handed = {c.value for c in x.test.comparators[0].elts if isinstance(c, ast.Constant)}
+                if handed:
+                    covered = set()
+                    for ms in k.methods.values():
+                        for m in ms:
+                            for lp in walk_no_nested(m.node):
+                                if not (isinstance(lp, ast.For) and isinstance(lp.iter, (ast.Tuple, ast.List, ast.Set)) and isinstance(lp.target, ast.Name)):
+                                    continue
+                                v = lp.target.id
+                                stores = any((isinstance(y, ast.Assign) and isinstance(y.targets[0], ast.Subscript) and norm(y.targets[0].slice) == v
+                                              and norm(y.targets[0].value).startswith("self.")) or
+                                             (isinstance(y, ast.Call) and isinstance(y.func, ast.Attribute) and y.func.attr in ("setdefault", "add")
+                                              and norm(y.func.value).startswith("self.") and y.args and norm(y.args[0]) == v)
+                                             for y in ast.walk(lp))
+                                if stores and not has_escape(lp.body):
+                                    covered |= {c.value for c in lp.iter.elts if isinstance(c, ast.Constant)}
+                    if not handed <= covered:
+                        partial = sorted(handed - covered)
+                        reserved = False
             okk = not bad and reserved
+            if partial:
+                rr.ob(g.relpath, g.qualname, norm(rets[0])[:70] if rets else g.name, "an override of the field-name conversion keeps the "
+                      "base class's disambiguation (it returns the inherited result, or a key it has reserved)", VIOLATED,
+                      f"the keys {partial} are handed back as they are, but no loop over them reserves each one present in the model: with "
+                      f"both `id` and `pk` in one object only one is reserved, and a third key with the label of the other (\"p-k\") "
+                      f"gets the same field name", g.node.lineno)
+                continue
             rr.ob(g.relpath, g.qualname, norm(rets[0])[:70] if rets else g.name, "an override of the field-name conversion keeps the "
                   "base class's disambiguation (it returns the inherited result, or a key it has reserved)", DISCHARGED if okk else VIOLATED,
                   f"`{norm(bad[0])[:50]}` bypasses the inherited conversion" if bad else
@@ -462,7 +498,7 @@ def _pl(ctx: Ctx) -> FuncInfo:
 
 def rule_label2(ctx: Ctx) -> RuleResult:
     """LABEL-2..4: the label is what Python will actually bind (NFKC), is not private (no leading underscore), is not empty."""
-    rr = RuleResult("LABEL-2..4", "labels are normalised identifiers, never private, never empty", floor=3)
+    rr = RuleResult("LABEL-2..4", "labels are normalised identifiers, never private, never empty", floor=4)
     f = _pl(ctx)
     mod = f.module
     s = f.params[0]
@@ -492,6 +528,33 @@ def rule_label2(ctx: Ctx) -> RuleResult:
           "NFKC-normalised: Python normalises identifiers when it compiles the class, but not the strings that refer to the "
           "field (alias comparison, convert_strings([...]) paths), so `µ` (U+00B5) would name an attribute `μ` (U+03BC)",
           DISCHARGED if ok else VIOLATED, "normalised on the non-transliterating path" if ok else why, f.node.lineno)
+    # ---- LABEL-2b: the normalised form survives the steps that delete characters (deleting a separator can bring two
+    # characters together that combine: conjoining jamo, a letter and a combining mark)
+    rr.instances += 1
+    deleting = []
+    for n in nodes:
+        if isinstance(n, ast.Call) and norm(n.func) in ("re.sub", "sub") and len(n.args) >= 3 and isinstance(n.args[1], ast.Constant) \
+                and n.args[1].value == "":
+            deleting.append(n)
+        if isinstance(n, ast.Call) and norm(n.func).endswith(".join") and n.args and isinstance(n.args[0], (ast.GeneratorExp, ast.ListComp)) \
+                and any(g.ifs for g in n.args[0].generators) and norm(n.args[0].generators[0].iter) == s:
+            deleting.append(n)
+        if isinstance(n, ast.Call) and isinstance(n.func, ast.Attribute) and n.func.attr in ("replace", "translate") and \
+                norm(n.func.value) == s and len(n.args) == 2 and isinstance(n.args[1], ast.Constant) and n.args[1].value == "":
+            deleting.append(n)
+    if translit and not nfkc:
+        rr.ob(f.relpath, f.qualname, "normalisation after the deleting steps", "the label handed to the de-duplication is in NFKC form",
+              DISCHARGED, "always transliterated to ASCII", f.node.lineno)
+    else:
+        last_del = max((n.lineno for n in deleting), default=0)
+        after = [n for n in nfkc if n.lineno > last_del or (n.lineno == last_del and any(d is x for d in deleting for x in ast.walk(n)))]
+        okb = bool(after) or not deleting
+        rr.ob(f.relpath, f.qualname, "normalisation after the deleting steps", "the label handed to the de-duplication is in NFKC form: two "
+              "keys whose labels Python reads as one identifier are recognised as colliding (the labels are compared as strings)",
+              DISCHARGED if okb else VIOLATED,
+              "normalised after the last deleting step" if okb else
+              f"characters are deleted at line {last_del}, after the last NFKC normalisation: 'ᄀ-ᅡ' loses its hyphen and becomes two "
+              f"conjoining jamo, a string different from '가' but the same identifier - one field for two keys", last_del or f.node.lineno)
     # ---- LABEL-4: the label is never empty when its first character is inspected, and an empty one is replaced
     rr.instances += 1
     subs = [n for n in nodes if isinstance(n, ast.Subscript) and isinstance(n.value, ast.Name) and n.value.id == s
@@ -794,34 +857,82 @@ def rule_uniq4(ctx: Ctx) -> RuleResult:
     hit = None
     ded_idx = next((i for i, g in enumerate(steps) if any(isinstance(n, ast.Call) and norm(n.func).endswith("set_raw_name")
                                                           for n in ast.walk(g.node))), None)
+    def _transitive_helper(call: ast.AST, mod) -> bool:
+        """`helper(<model>)` where helper walks child_pointers with a work list or by recursion"""
+        if not (isinstance(call, ast.Call) and isinstance(call.func, ast.Name)):
+            return False
+        hs = [h for h in mod.all_funcs if h.qualname == call.func.id]
+        for h in hs:
+            walks = any(isinstance(x, ast.Attribute) and x.attr == "child_pointers" for x in ast.walk(h.node))
+            again = any(isinstance(x, ast.While) for x in ast.walk(h.node)) and any(
+                isinstance(x, ast.Call) and isinstance(x.func, ast.Attribute) and x.func.attr in ("append", "extend", "add", "update")
+                for x in ast.walk(h.node)) or any(isinstance(x, ast.Call) and norm(x.func) == h.name for x in ast.walk(h.node)) or any(
+                isinstance(g_, ast.FunctionDef) and g_ is not h.node and any(isinstance(x, ast.Call) and norm(x.func) == g_.name
+                                                                             for x in ast.walk(g_)) for g_ in ast.walk(h.node))
+            if walks and again:
+                return True
+        return False
+
     for gi, g in enumerate(steps):
         for n in ast.walk(g.node):
             if isinstance(n, ast.Call) and isinstance(n.func, ast.Attribute) and n.args and ".name" in norm(n.args[0]) and (
                     "reserve" in n.func.attr or n.func.attr in ("setdefault", "add")):
-                # driven by the children of the generator's model
                 lp = None
                 for x in ast.walk(g.node):
                     if isinstance(x, ast.For) and any(n is y for y in ast.walk(x)):
                         lp = x
-                if lp is not None and ("child_pointers" in norm(lp.iter) or "nested" in norm(lp.iter)):
-                    if hit is None or ("child_pointers" in norm(lp.iter) and not hit[2]):
-                        hit = (g, n, "child_pointers" in norm(lp.iter), gi)
+                if lp is None:
+                    continue
+                kind = "descendants" if _transitive_helper(lp.iter, g.module) else (
+                    "children" if "child_pointers" in norm(lp.iter) else ("layout" if "nested" in norm(lp.iter) else None))
+                if kind is None:
+                    continue
+                rank = {"descendants": 3, "children": 2, "layout": 1}[kind]
+                if hit is None or rank > hit[2]:
+                    hit = (g, n, rank, gi, kind)
     if hit is None:
         rr.ob(BASE, "_generate_code", "field labels vs child class names", st, VIOLATED,
               "no step before rendering reserves the class names of child models among the field labels: a key that gives the same "
               "label as field and as class (\"1\" -> one_) rebinds the nested class to the field's default", 1)
     else:
-        g, n, both, gi = hit
+        g, n, rank, gi, kind = hit
         late = ded_idx is None or gi > ded_idx
-        if late and not both:
+        layout_dependent = any(isinstance(x, ast.For) and "nested" in norm(x.iter) and any(
+            isinstance(y, ast.Call) and isinstance(y.func, ast.Attribute) and ("reserve" in y.func.attr) for y in ast.walk(x))
+            for x in ast.walk(g.node))
+        if kind != "descendants" or layout_dependent:
             rr.ob(g.relpath, g.qualname, norm(n)[:70], st, VIOLATED,
-                  "only the classes the layout nests below a class are reserved, not the children of its model: the flat layout (which "
-                  "nests nothing) hands out other field names than the nested one (`one_` there, `one__` here)", n.lineno)
+                  ("the classes the layout happens to nest below a class are reserved: the flat layout (which nests nothing) hands out "
+                   "other field names than the nested one (`X` there, `X_` here)") if layout_dependent or kind == "layout" else
+                  "only the direct children are reserved: a model that several children share is nested in the root's body without being "
+                  "its child, and a field of the root can take its class name", n.lineno)
             return rr
         rr.ob(g.relpath, g.qualname, norm(n)[:70], st, DISCHARGED if late else VIOLATED,
-              ("reserved from the model graph (same labels in both layouts)" if both else "reserved for nested classes") if late else
+              "reserved from the model graph, every model below the class (same labels in both layouts)" if late else
               "the class names are reserved BEFORE the de-duplication step renames some of them: a field can dodge the old name and "
               "land exactly on the new one (\"1\" and \"#1\": class one__ and field one__ in one body)", n.lineno)
+        # every generator of every level is visited: nothing leaves the loop over the generators early
+        outer = next((x for x in g.node.body if isinstance(x, ast.For) and any(n is y for y in ast.walk(x))), None)
+        if outer is not None:
+            rr.instances += 1
+            esc = has_escape(outer.body) or any(isinstance(x, ast.Continue) for x in ast.walk(outer))
+            rr.ob(g.relpath, g.qualname, f"for {norm(outer.target)} in {norm(outer.iter)}: ...", "the reservation reaches every class of "
+                  "every level", VIOLATED if esc else DISCHARGED,
+                  "a return / break / continue in the loop over the generators: the classes that follow on that level (and everything "
+                  "nested in them) keep unreserved names" if esc else "no early exit", outer.lineno)
+        # what a reserved label is recorded with can never equal a key
+        base_cls = ctx.prog.cls(BASE, "GenericModelCodeGenerator")
+        for m in base_cls.methods.get("reserve_field_name", []):
+            for c in walk_no_nested(m.node):
+                if isinstance(c, ast.Call) and isinstance(c.func, ast.Attribute) and c.func.attr == "setdefault" and len(c.args) == 2:
+                    rr.instances += 1
+                    owner = c.args[1]
+                    okv = isinstance(owner, ast.Constant) and not isinstance(owner.value, str)
+                    rr.ob(m.relpath, m.qualname, norm(c)[:70], "a reserved label is recorded with an owner no key can be equal to (keys are "
+                          "strings), so that the key spelled like the label does not get it either", DISCHARGED if okv else VIOLATED,
+                          f"owner `{norm(owner)}`" if okv else
+                          f"the owner recorded is `{norm(owner)[:30]}`, a string: the key equal to it is taken for the owner and gets the "
+                          f"reserved label - the field `X` next to the nested `class X` in one body", c.lineno)
     return rr
 
 
